@@ -8,6 +8,8 @@ mod merge;
 mod point;
 mod settings;
 pub mod util;
+#[cfg(feature = "verif")]
+pub mod verif;
 
 pub use buffer::{
     fragment, fragment::Fragment, Cell, CellBuffer, Direction, FragmentBuffer,
@@ -29,6 +31,8 @@ pub fn to_svg(ascii: &str) -> String {
 pub fn to_svg_string_pretty(ascii: &str) -> String {
     let cb = CellBuffer::from(ascii);
     let node: Node<()> = cb.get_node();
+    #[cfg(feature = "verif")]
+    crate::verif::point("render");
     let mut buffer = String::new();
     node.render(&mut buffer).expect("must render");
     buffer
@@ -38,6 +42,8 @@ pub fn to_svg_string_pretty(ascii: &str) -> String {
 pub fn to_svg_string_compressed(ascii: &str) -> String {
     let cb = CellBuffer::from(ascii);
     let node: Node<()> = cb.get_node();
+    #[cfg(feature = "verif")]
+    crate::verif::point("render");
     node.render_to_string()
 }
 
@@ -45,6 +51,8 @@ pub fn to_svg_string_compressed(ascii: &str) -> String {
 pub fn to_svg_with_settings(ascii: &str, settings: &Settings) -> String {
     let cb = CellBuffer::from(ascii);
     let (node, _w, _h): (Node<()>, f32, f32) = cb.get_node_with_size(settings);
+    #[cfg(feature = "verif")]
+    crate::verif::point("render");
     let mut buffer = String::new();
     node.render(&mut buffer).expect("must render");
     buffer
@@ -59,6 +67,8 @@ pub fn to_svg_with_override_size(
 ) -> String {
     let cb = CellBuffer::from(ascii);
     let node: Node<()> = cb.get_node_override_size(settings, w, h);
+    #[cfg(feature = "verif")]
+    crate::verif::point("render");
     let mut buffer = String::new();
     node.render(&mut buffer).expect("must render");
     buffer
